@@ -3,6 +3,7 @@ package excellent
 import (
 	"strings"
 
+	"github.com/nyaruka/goflow/excellent/types"
 	"github.com/nyaruka/goflow/zzverif"
 )
 
@@ -81,4 +82,68 @@ func VerifC12_Lossless() {
 	if !hasAt && len(tmpl) > 0 {
 		zzverif.Assert(len(toks) == 1 && toks[0].typ == BODY && toks[0].text == tmpl, "template without @ is not a single body")
 	}
+}
+
+func verifLiteralContent(name string, n int, ascii bool) string {
+	return verifTemplate(name, n, ascii)
+}
+
+// VerifC12_QuoteAlone: for every string s, the literal goflow writes for it
+// (strconv.Quote, as XText.Describe does) is scanned by the template scanner
+// as exactly one expression, is one TEXT token for the lexer rule, and the
+// visitor evaluates it back to s.
+// cover: plain, has-quote, has-backslash, trailing-backslash
+func VerifC12_QuoteAlone() {
+	n := 3
+	if zzverif.Thorough() {
+		n = 4
+	}
+	s := verifLiteralContent("s", n, !zzverif.Thorough())
+	lit := types.NewXText(s).Describe()
+	if strings.IndexByte(s, '"') >= 0 {
+		zzverif.Cover("has-quote")
+	} else if strings.IndexByte(s, '\\') >= 0 {
+		zzverif.Cover("has-backslash")
+	} else {
+		zzverif.Cover("plain")
+	}
+	if strings.HasSuffix(s, "\\") {
+		zzverif.Cover("trailing-backslash")
+	}
+	tmpl := "@(" + lit + ")"
+	toks := verifScanAll(tmpl, nil, true)
+	zzverif.Assert(len(toks) == 1 && toks[0].typ == EXPRESSION && toks[0].text == lit, "scanner does not end the expression at the end of the quoted literal")
+	zzverif.Assert(verifLexTEXT(lit) == len(lit), "quoted literal is not exactly one TEXT token")
+	v := &visitor{}
+	got := v.VisitTextLiteral(verifTextLiteral(lit)).(*TextLiteral).Value.Native()
+	zzverif.Assert(got == s, "literal does not evaluate back to the string")
+}
+
+// VerifC12_QuoteNeighbours: the same next to other literals: in
+// @("x" & Q(s) & Q(t)) the scanner ends the expression at the final ')' and
+// the lexer rule's token boundaries (longest match) are those of the literals.
+// cover: s-trailing-backslash, both-nonempty
+func VerifC12_QuoteNeighbours() {
+	n := 2
+	if zzverif.Thorough() {
+		n = 3
+	}
+	s := verifLiteralContent("s", n, true)
+	t := verifLiteralContent("t", n, true)
+	qs, qt := types.NewXText(s).Describe(), types.NewXText(t).Describe()
+	expr := "\"x\" & " + qs + " & " + qt
+	if len(s) > 0 && len(t) > 0 {
+		zzverif.Cover("both-nonempty")
+	}
+	toks := verifScanAll("@("+expr+") tail", nil, true)
+	zzverif.Assert(len(toks) == 2 && toks[0].typ == EXPRESSION && toks[0].text == expr && toks[1].typ == BODY && toks[1].text == " tail",
+		"scanner and literals disagree on where the expression ends")
+	// the lexer, positioned at the start of Q(s), must produce exactly Q(s)
+	if zzverif.Known("C12-lexer-trailing-backslash", strings.HasSuffix(s, "\\")) {
+		zzverif.Cover("s-trailing-backslash")
+	}
+	rest := expr[len("\"x\" & "):]
+	zzverif.Assert(verifLexTEXT(rest) == len(qs), "TEXT token starting at the first literal does not end where the literal ends")
+	rest2 := rest[len(qs)+len(" & "):]
+	zzverif.Assert(verifLexTEXT(rest2) == len(qt), "TEXT token starting at the second literal does not end where the literal ends")
 }
